@@ -10,16 +10,7 @@ ASSUMPTIONS = [
   "finite values (NaN/inf are removed by the callers before these routines)",
   "numpy.argsort is modelled as extraction of first minima; with ties at the cut the implementation is checked against the decidable specification only",
 ]
-ASSUMPTIONS += [
-  "the two wrappers that consume the labelling raise ValueError (numpy.nanargmin of an empty array) when every observation is a reported "
-  "failure: modelled as `None` (Model/Filters.v filter_gp_run / filter_spe_run), compared as an error class, refuted as a clause "
-  "(C13_wrapper_all_failed_refuted); the minimum-survives-the-wrapper theorems hold for every history with at least one observation "
-  "that is not a reported failure",
-]
 TRUSTED = ["tools/props/C13.py case generator and the Q-literal printer", "Model/ParetoCorr.v check function"]
-# every observation a reported failure, epsilon-constraint method: both wrappers raise ValueError on the unchanged tree (reported to the
-# coordinator; emitted by the searcher only once KNOWN_FINDINGS.json lists exactly this signature, otherwise noted in the evidence)
-ALL_FAILED_SIG = "C13:wrapper:every-observation-reported-failed:ValueError"
 
 
 def _impl():
@@ -86,17 +77,65 @@ def run_impl(kind, inp):
     args = [pts, vals2] + ([numpy.array(inp["vars"], dtype=float).reshape(n, 2)] if kind == "wrap_gp" else []) + [fails, lie]
     snap = [a.copy() for a in args]
     fn = mm.filter_multimetric_points_sampled if kind == "wrap_gp" else mm.filter_multimetric_points_sampled_spe
-    try:
-      out = fn(info, *args)
-    except ValueError as e:
-      return dict(raised="ValueError", message=str(e))
+    out = fn(info, *args)
     assert all(numpy.array_equal(a, b) for a, b in zip(snap, args)), f"{fn.__name__} modified one of its inputs"
     if kind == "wrap_gp":
       p, v, s, l = out
       return dict(pts=numpy.asarray(p).tolist(), vals=numpy.asarray(v).tolist(), vars=numpy.asarray(s).tolist(), lie=float(l))
     p, v = out
     return dict(pts=numpy.asarray(p).tolist(), vals=numpy.asarray(v).tolist())
+  if kind == "wrap_view":
+    return run_view(inp)
   raise ValueError(kind)
+
+
+def view_request(inp):
+  """A two-metric request (two optimised metrics, no thresholds, unit square) with `n` observations of which the first `nfail` are
+  reported failures and a budget of n + 1, so that the request is in the completion phase (epsilon-constraint method)."""
+  from libsigopt.aux.adapter_info_containers import DomainInfo, GPModelInfo, MetricsInfo, PointsContainer
+  from libsigopt.aux.constant import PARALLEL_CONSTANT_LIAR
+  n = inp["n"]
+  rng = numpy.random.RandomState(inp["seed"])
+  values = rng.uniform(-1, 1, size=(n, 2))
+  hyper = {"alpha": 1.0, "length_scales": [[0.3], [0.3]], "tikhonov": 1e-6, "task_length": None}
+  return {
+    "domain_info": DomainInfo(constraint_list=[], domain_components=[{"var_type": "double", "elements": (0.0, 1.0)} for _ in range(2)]),
+    "num_to_sample": 1,
+    "points_sampled": PointsContainer(points=rng.random_sample((n, 2)), values=values, value_vars=numpy.full_like(values, 1e-10),
+                                      failures=numpy.array([i < inp["nfail"] for i in range(n)], dtype=bool)),
+    "points_being_sampled": PointsContainer(points=numpy.zeros((0, 2))),
+    "tag": {},
+    "metrics_info": MetricsInfo(requires_pareto_frontier_optimization=True, observation_budget=n + 1, user_specified_thresholds=[None, None],
+                                objectives=["maximize", "maximize"], optimized_metrics_index=[0, 1], constraint_metrics_index=[]),
+    "task_options": numpy.array([]),
+    "model_info": GPModelInfo(hyperparameters=[dict(hyper), dict(hyper)], max_simultaneous_af_points=200,
+                              nonzero_mean_info={"mean_type": "constant", "poly_indices": None}),
+    "parallelism": PARALLEL_CONSTANT_LIAR,
+  }
+
+
+def run_view(inp):
+  """The two real next-points views on such a request: the data they hand to their model goes through the two wrappers."""
+  import warnings
+  from libsigopt.views.rest.gp_next_points_categorical import GpNextPointsCategorical
+  from libsigopt.views.rest.spe_next_points import SPENextPoints
+  cls = dict(spe=SPENextPoints, gp=GpNextPointsCategorical)[inp["view"]]
+  state = numpy.random.get_state()
+  numpy.random.seed(inp["seed"])
+  try:
+    with warnings.catch_warnings():
+      warnings.simplefilter("ignore")
+      view = cls(view_request(inp))
+      method = view.multimetric_info.method
+      resp = view.call()
+  finally:
+    numpy.random.set_state(state)
+  return dict(method=method, points=numpy.asarray(resp["points_to_sample"], dtype=float).tolist())
+
+
+def gen_view(rng):
+  n = rng.randint(1, 9)
+  return dict(view=rng.choice(["spe", "gp"]), n=n, nfail=(n if rng.random() < 0.7 or n == 1 else n - 1), seed=rng.randint(0, 10**6))
 
 
 def gen_wrapper(rng, kind):
@@ -158,15 +197,11 @@ def gen_case(rng):
     def th():
       return None if rng.random() < 0.4 else rng.randint(-2, 14) + rng.choice([0, 0.5])
     return kind, dict(vals=vals, eps=eps, cm=cm, thresholds=[th(), th()])
-  fails = [rng.random() < rng.choice([0.2, 0.5, 0.9]) for _ in range(n)]
+  fails = [rng.random() < rng.choice([0.2, 0.5, 0.9, 1.0]) for _ in range(n)]     # every observation failed included
   if kind == "epsfail":
-    if all(fails):
-      fails[rng.randrange(n)] = False
     return kind, dict(vals=vals, eps=eps, cm=cm, fails=fails)
   if kind == "force":
     return kind, dict(vals=vals, om=cm, fails=fails)
-  if all(fails):
-    fails[rng.randrange(n)] = False
   return kind, dict(vals=vals, eps=eps, om=1 - cm, cm=cm, fails=fails)
 
 
@@ -196,15 +231,12 @@ def coq_case(kind, inp, out):
     head = f"{C.qlit(inp['eps'])} {om} {inp['cm']} {rows(inp['pts'])} {v}"
     col = [r[om] for r in inp["vals"]]
     if kind == "wrap_gp":
-      if "raised" in out:
-        o, kept = "None", []
-      else:
-        o = (f"(Some {{| o_pts := {rows(out['pts'])}; o_vals := A1 {ql(out['vals'])}; o_vars := A1 {ql(out['vars'])}; "
-             f"o_lie := Sc {C.qlit(out['lie'])} |}})")
-        kept = [int(p[-1]) for p in out["pts"]]          # the generator numbers the rows in the last coordinate of the point
+      o = (f"{{| o_pts := {rows(out['pts'])}; o_vals := A1 {ql(out['vals'])}; o_vars := A1 {ql(out['vars'])}; "
+           f"o_lie := Sc {C.qlit(out['lie'])} |}}")
+      kept = [int(p[-1]) for p in out["pts"]]          # the generator numbers the rows in the last coordinate of the point
       ties = len(set(col)) < len(col)
       return f"CWrapGP {head} {rows(inp['vars'])} {bl(inp['fails'])} {ql(lie)} {o} {C.listlit(kept, C.nlit)} {C.blit(ties)}"
-    o = "None" if "raised" in out else f"(Some ({rows(out['pts'])}, {ql(out['vals'])}))"
+    o = f"{rows(out['pts'])} {ql(out['vals'])}"
     rest = [x for x in col if x != lie[om]]              # rows whose value is the lie value read the same whatever their label
     ties = len(set(rest)) < len(rest)
     return f"CWrapSPE {head} {bl(inp['fails'])} {ql(lie)} {o} {C.blit(ties)}"
@@ -218,14 +250,14 @@ def nontrivial(kind, inp, out):
   if kind == "eps":
     return len(inp["vals"]) >= 2
   if kind in ("wrap_gp", "wrap_spe"):
-    return "raised" in out or any(inp["fails"])
-  return any(inp["fails"]) and not all(inp["fails"])
+    return any(inp["fails"])
+  return any(inp["fails"])
 
 
 def wrapper_branch(kind, inp, out):
   """which part of the wrapper's data flow a case exercises (reported in the distribution)"""
-  if "raised" in out:
-    return f"{kind}:every-observation-failed:ValueError"
+  if all(inp["fails"]):
+    return f"{kind}:every-observation-failed"
   good = sum(1 for f in inp["fails"] if not f)
   n = len(inp["fails"])
   if n < 5:
@@ -242,7 +274,7 @@ def correspondence(ctx):
     kind, inp = gen_case(ctx.rng)
     try:
       out = run_impl(kind, inp)
-    except Exception as e:  # the implementation must not fail on a valid input (ValueError of the wrappers is an output, see run_impl)
+    except Exception as e:  # the implementation must not fail on a valid input
       crashed.append(dict(what=f"C13 {kind}: implementation raised {type(e).__name__}: {e}", kind=kind, input=inp, observed=repr(e)))
       if len(crashed) > 20:
         break
@@ -265,7 +297,7 @@ def correspondence(ctx):
                    "dyadic epsilon k/16, thresholds inside/outside the data range; non-trivial = both a dominated and a non-dominated row "
                    "(pareto), a frontier of >= 2 rows and a dominated row (sorted frontier), >=2 rows (epsilon), mixed failure mask (repair), some reported failure (wrappers); the two wrappers "
                    "filter_multimetric_points_sampled / _spe with the epsilon-constraint method on histories with 0..4 good observations plus "
-                   "1..7 reported failures, n < 5, every observation failed (ValueError = the model's None), general masks, lie values distinct "
+                   "1..7 reported failures, n < 5, every observation failed (also at the labelling level), general masks, lie values distinct "
                    "from the data or carried by the failures as the views pass them; distinct by hash of the canonical input",
               samples=[dict(kind=k, input=i, impl_output=o) for k, i, o in meta[:3]], distribution=dist, disagreements=dis)
 
@@ -329,10 +361,6 @@ def oracle_wrapper(kind, inp):
   except Exception as e:
     return dict(signature=f"C13:{kind}:raises:{type(e).__name__}", what=f"{kind} raised {type(e).__name__}: {e}", input=dict(kind=kind, **inp),
                 observed=repr(e), expected="a result", oracle="no exception on valid input")
-  if "raised" in out:
-    if all(inp["fails"]):
-      return None      # every observation a reported failure: ValueError on the unchanged tree too (ALL_FAILED_SIG, handled in search)
-    return fail("raises ValueError although some observation is not a reported failure", out, "data")
   own = [r[om] for r in inp["vals"]]
   lie = inp["lie"][om]
   if kind == "wrap_gp":
@@ -359,20 +387,22 @@ def oracle_wrapper(kind, inp):
   return None
 
 
-def all_failed_probe():
-  """Deterministic construction of the recorded behaviour: every observation a reported failure."""
-  inp = dict(vals=[[1.0, 2.0], [2.0, 1.0], [3.0, 3.0]], eps=0.5, om=0, cm=1, fails=[True, True, True], lie=[9.0, 9.0],
-             pts=[[0.0, 0.0], [0.0, 1.0], [0.0, 2.0]], vars=[[0.0, 0.0]] * 3)
-  got = {}
-  for kind in ("wrap_gp", "wrap_spe"):
-    try:
-      got[kind] = run_impl(kind, inp)
-    except Exception as e:
-      got[kind] = dict(raised=type(e).__name__, message=str(e))
-  if all(g.get("raised") == "ValueError" for g in got.values()):
-    return dict(signature=ALL_FAILED_SIG, what="filter_multimetric_points_sampled / _spe with the epsilon-constraint method raise ValueError "
-                "(numpy.nanargmin of an empty array) when every observation is a reported failure: no data, hence no guaranteed minimum",
-                input=dict(kind="all_failed", **inp), observed=got, expected="min(5, n) rows", oracle="deterministic construction")
+def oracle_wrap_view(inp):
+  """The same clause at the use site: a real next-points view on a request whose observations are (almost) all reported failures, in the
+  epsilon-constraint phase, must get its data through the wrapper and answer with one finite point of the unit square."""
+  full = dict(kind="wrap_view", **inp)
+  try:
+    out = run_view(inp)
+  except Exception as e:
+    return dict(signature=f"C13:wrap_view:raises:{type(e).__name__}", what=f"{inp['view']} next-points view with {inp['nfail']} of {inp['n']} "
+                f"observations reported failed raised {type(e).__name__}: {e}", input=full, observed=repr(e), expected="one suggested point",
+                oracle="no exception on a valid request")
+  if out["method"] != "epsilon_constraint":
+    return None
+  p = numpy.asarray(out["points"], dtype=float)
+  if p.shape != (1, 2) or not numpy.isfinite(p).all() or (p < 0).any() or (p > 1).any():
+    return dict(signature="C13:wrap_view:suggestion is not one finite point of the domain", what="view: the suggestion is not one finite point of the "
+                "unit square", input=full, observed=out, expected="shape (1, 2) inside [0, 1]^2", oracle="range check")
   return None
 
 
@@ -382,9 +412,8 @@ def oracle(kind, inp):
     return oracle_view(inp["raw"])
   if kind in ("wrap_gp", "wrap_spe"):
     return oracle_wrapper(kind, inp)
-  if kind == "all_failed":
-    r = all_failed_probe()
-    return r if (r and C.match_finding(PROP, r)) else None
+  if kind == "wrap_view":
+    return oracle_wrap_view(inp)
   try:
     out = run_impl(kind, inp)
   except Exception as e:
@@ -421,7 +450,7 @@ def oracle(kind, inp):
       return fail("threshold outside the range of the constrained metric", [float(col.min()), float(col.max())])
   elif kind in ("force", "label"):
     fails = numpy.array(inp["fails"], dtype=bool)
-    if kind == "label":
+    if kind == "label" and not fails.all():       # with no successful observation nothing is labelled by the threshold
       succ = v[~fails]
       cm, eps = inp["cm"], inp["eps"]
       a, b = succ[int(numpy.argmin(succ[:, 0])), cm], succ[int(numpy.argmin(succ[:, 1])), cm]
@@ -438,6 +467,10 @@ def oracle(kind, inp):
       return fail("a flipped row is larger than a row left failed", None)
   elif kind == "epsfail":
     fails = numpy.array(inp["fails"], dtype=bool)
+    if fails.all():                                  # no successful observation: no frontier, nothing is labelled by the threshold
+      if any(out["mask"]) or len(out["mask"]) != n:
+        return fail("rows are labelled by the threshold although no observation is successful", [False] * n)
+      return None
     succ = v[~fails]
     cm, eps = inp["cm"], inp["eps"]
     a, b = succ[int(numpy.argmin(succ[:, 0])), cm], succ[int(numpy.argmin(succ[:, 1])), cm]
@@ -457,6 +490,12 @@ def search(ctx, hints, broken):
       r = oracle(h["kind"], h["input"])
       if r:
         fails.append(r)
+  # the two real views on requests whose observations are all (or all but one) reported failures: two fixed requests, then random ones
+  for vin in [dict(view="spe", n=8, nfail=8, seed=1), dict(view="gp", n=8, nfail=8, seed=1)] + [gen_view(ctx.rng) for _ in range(ctx.n(3, 30))]:
+    n += 1
+    r = oracle("wrap_view", vin)
+    if r and r["signature"] not in {f["signature"] for f in fails}:
+      fails.append(r)
   budget = ctx.n(1500, 30000) * (3 if broken else 1)
   rng = ctx.rng
   for _ in range(budget):
@@ -481,9 +520,7 @@ def search(ctx, hints, broken):
       scale = 10.0 ** rng.randint(-6, 6)
       inp["vals"] = [[round(rng.gauss(0, 1), rng.choice([0, 1, 6])) * scale for _ in range(m)] for _ in range(nrow)]
       if "fails" in inp:
-        inp["fails"] = [rng.random() < 0.6 for _ in range(nrow)]
-        if kind in ("epsfail", "label") and all(inp["fails"]):
-          inp["fails"][0] = False
+        inp["fails"] = [rng.random() < rng.choice([0.6, 0.6, 1.0]) for _ in range(nrow)]
     n += 1
     r = oracle(kind, inp)
     if r:
@@ -499,13 +536,8 @@ def search(ctx, hints, broken):
     if r and r["signature"] not in {f["signature"] for f in fails}:
       fails.append(r)
   res = dict(evaluations=n, failures=fails, oracle="brute-force dominance / closed-form threshold / counting; range clause at the view's failure models; "
-             "rows handed on by the two wrappers (epsilon-constraint method) counted against min(5, n)")
-  probe = all_failed_probe()
-  if probe is not None:
-    if C.match_finding(PROP, probe):
-      fails.append(probe)
-    else:
-      res["unlisted_finding"] = dict(signature=probe["signature"], what=probe["what"], input=probe["input"])
+             "rows handed on by the two wrappers (epsilon-constraint method) counted against min(5, n), every-observation-failed masks included; "
+             "the two real next-points views on requests whose observations are all (or all but one) reported failures")
   return res
 
 
@@ -522,8 +554,6 @@ LEVEL_TEXT = ("Coq theorems (loop invariant + transitivity of dominance; first-m
               "model is tied to the code by exact differential runs whose comparison is evaluated inside Coq, and the implementation's "
               "outputs are also checked against the decidable specification proved equivalent to the theorem's statement")
 LEVEL_NOTE = ("Exact arithmetic over Q (finite doubles are rationals; comparisons agree); NaN/inf excluded as in the callers; "
-              "numpy.argsort tie order is not modelled (spec-level comparison on ties); a history in which every observation is a reported "
-              "failure makes both wrappers raise ValueError (modelled as None, refuted as a clause: C13_wrapper_all_failed_refuted); "
-              "harness and case printer trusted; no axioms")
+              "numpy.argsort tie order is not modelled (spec-level comparison on ties); harness and case printer trusted; no axioms")
 TECHNIQUE = "Coq proof (loop invariant, induction) on executable model + in-Coq differential correspondence"
 DESIGN_REF = "DESIGN.md section 7, C13"
